@@ -27,7 +27,7 @@ EXHAUSTIVE = {"quick": True, "thorough": True}
 ASSUMPTIONS = ["strictly positive CPDs (the adjustment formula conditions on (x,z))", "query sets disjoint from the do-set and its parents (the engine refuses others)",
                "front-door verdicts are compared only when a directed path X->..->Y exists"]
 
-NAMES = ["A", "B", "C", "D", "E"]
+NAMES = ["A", "B", "C", "D", "E", "G"]
 
 
 def groups(tier, seed):
